@@ -7,6 +7,8 @@ open Srtla.Conn Srtla.Drv
 structure St where
   links : Links := []
   trk : Tracker := Tracker.empty
+  /-- per link: the batch queue (sequence number, queue time), oldest first -/
+  queues : List (List (Nat × Nat)) := []
 
 def showPhase : Phase → String
   | .registering => "reg"
@@ -20,15 +22,19 @@ def insertSorted (e : Int × Nat) : List (Int × Nat) → List (Int × Nat)
 
 def sortLog (l : List (Int × Nat)) : List (Int × Nat) := l.foldr insertSorted []
 
-def showConn (c : Conn) : String :=
+def showConn (c : Conn) (queued : Nat := 0) : String :=
   let log := ",".intercalate ((sortLog c.log).map fun e => s!"{e.1}:{e.2}")
   s!"{c.connId} c={showBool c.connected} w={c.window} inf={c.inFlight} log=[{log}] hi={c.highestAcked} " ++
   s!"lr={showOptNat c.lastReceived} proof={c.proofMs} rttm={c.lastRttMeasMs} nak={c.cong.nakCount} " ++
   s!"lnak={c.cong.lastNakMs} lincr={c.cong.lastIncrMs} fr={showBool c.cong.fastRecovery} " ++
   s!"frs={c.cong.fastRecoveryStartMs} burst={c.cong.nakBurstCount} bstart={c.cong.nakBurstStartMs} " ++
-  s!"ph={showPhase c.phase} score={c.score 0}"
+  s!"ph={showPhase c.phase} score={c.score queued} q={queued} ls={showOptNat c.lastSent}"
 
-def showSt (s : St) : String := " | ".intercalate (s.links.map showConn)
+def showSt (s : St) : String :=
+  " | ".intercalate ((s.links.zip s.queues).map fun p => showConn p.1 p.2.length)
+
+def setQ (qs : List (List (Nat × Nat))) (i : Nat) (q : List (Nat × Nat)) : List (List (Nat × Nat)) :=
+  qs.mapIdx fun j x => if j = i then q else x
 
 def mkLinks (n : Nat) : Links := (List.range n).map fun i => { connId := i + 1 }
 
@@ -44,7 +50,7 @@ def step (s : St) (toks : List String) : St × String :=
   match toks with
   | ["new", n] =>
     match n.toNat? with
-    | some n => ok { links := mkLinks n, trk := Tracker.empty }
+    | some n => ok { links := mkLinks n, trk := Tracker.empty, queues := List.replicate n [] }
     | none => bad
   | "setc" :: i :: rest =>
     match i.toNat? with
@@ -69,9 +75,31 @@ def step (s : St) (toks : List String) : St × String :=
     match i.toNat?, seq.toNat?, t.toNat? with
     | some i, some seq, some t =>
       match s.links[i]? with
-      | some c => ok { links := updateAt s.links i (·.register (toI32 seq) t), trk := s.trk.insert seq c.connId t }
+      | some c => ok { s with links := updateAt s.links i (·.register (toI32 seq) t), trk := s.trk.insert seq c.connId t }
       | none => bad
     | _, _, _ => bad
+  | ["q", i, seq, t] =>
+    -- queue_data_packet: nothing is registered until the batch is taken
+    match i.toNat?, seq.toNat?, t.toNat? with
+    | some i, some seq, some t =>
+      match s.queues[i]? with
+      | some q => ok { s with queues := setQ s.queues i (q ++ [(seq, t)]) }
+      | none => bad
+    | _, _, _ => bad
+  | ["tb", i, now] =>
+    -- take_batch: register every queued packet with its queue-time stamp, in order
+    match i.toNat?, now.toNat? with
+    | some i, some now =>
+      match s.queues[i]? with
+      | some q =>
+        if q.isEmpty then ok s else
+        ok { s with
+          links := updateAt s.links i fun c =>
+            let c' := q.foldl (fun c e => c.register (toI32 e.1) e.2) c
+            { c' with lastSent := some now },
+          queues := setQ s.queues i [] }
+      | none => bad
+    | _, _ => bad
   | ["trk", seq, cid, t] =>
     match seq.toNat?, cid.toNat?, t.toNat? with
     | some seq, some cid, some t => ok { s with trk := s.trk.insert seq cid t }
@@ -85,9 +113,9 @@ def step (s : St) (toks : List String) : St × String :=
     match i.toNat?, now.toNat? with
     | some i, some now =>
       match kind with
-      | "recovery" => ok { s with links := updateAt s.links i Conn.markForRecovery }
-      | "reconnect" => ok { s with links := updateAt s.links i Conn.resetForReconnect }
-      | "reg3" => ok { s with links := updateAt s.links i (·.clearPreRegistration now) }
+      | "recovery" => ok { s with links := updateAt s.links i Conn.markForRecovery, queues := setQ s.queues i [] }
+      | "reconnect" => ok { s with links := updateAt s.links i Conn.resetForReconnect, queues := setQ s.queues i [] }
+      | "reg3" => ok { s with links := updateAt s.links i (·.clearPreRegistration now), queues := setQ s.queues i [] }
       | _ => bad
     | _, _ => bad
   | ["recover", i, now, vel] =>
@@ -101,7 +129,8 @@ def step (s : St) (toks : List String) : St × String :=
     match i.toNat? with
     | some i =>
       match s.links[i]? with
-      | some c => ok { links := s.links.eraseIdx i, trk := s.trk.removeConnection c.connId }
+      | some c => ok { links := s.links.eraseIdx i, trk := s.trk.removeConnection c.connId,
+                       queues := s.queues.eraseIdx i }
       | none => bad
     | none => bad
   | ["get", seq, now] =>
